@@ -143,8 +143,10 @@ class Report(object):
             for i in its[:3]:
                 samples.append({"rule": rule, "instance": i["instance"], "status": i["status"],
                                 "where": i["where"], "detail": i["detail"][:300]})
+        named = set(d.split()[0] for d in self.decided)
+        also = ["%s %s" % (r, " ".join(t.split())[:220]) for r, t in sorted(self.rules.items()) if r not in named and r in per_rule]
         explanation = ("Static analysis of the working tree (ast only, no import of odml). "
-                       "Decided clauses: " + "; ".join(self.decided) + ". "
+                       "Decided clauses: " + "; ".join(list(self.decided) + also) + ". "
                        "NOT decided by this check: " + "; ".join(self.not_decided) + ".")
         cov = {
             "explanation": explanation,
